@@ -338,11 +338,13 @@ theorem comps_prefix_of_inside (root q : Str) (h : inside .sepTerminated root q 
       rw [comps_append_sep]
       exact List.prefix_append _ _
 
-theorem resolve_ok {k : ContainKind} {cwd : Str} {fs : RawFS} {p q : Str}
+theorem resolve_ok {k : Cfg} {cwd : Str} {fs : RawFS} {p q : Str}
     (h : resolve k cwd fs p = .ok q) :
-    q = abspath cwd (join2 fs.root p) ∧ (fs.constrain = true → inside k fs.root q = true) := by
+    q = abspath cwd (join2 fs.root (if k.foldSlash then replaceBS p else p)) ∧
+      (fs.constrain = true → inside k.contain fs.root q = true) := by
   unfold resolve at h
   simp only at h
+  generalize (if k.foldSlash = true then replaceBS p else p) = p' at h ⊢
   split at h
   · cases h
   · rename_i hc
@@ -350,6 +352,14 @@ theorem resolve_ok {k : ContainKind} {cwd : Str} {fs : RawFS} {p q : Str}
     refine ⟨rfl, fun hcon => ?_⟩
     simp only [hcon, Bool.true_and, Bool.not_eq_true', Bool.not_eq_false] at hc
     simpa using hc
+
+theorem replaceBS_idem (p : Str) : replaceBS (replaceBS p) = replaceBS p := by
+  induction p with
+  | nil => rfl
+  | cons c cs ih =>
+    simp only [replaceBS, List.map_cons, List.map_map] at ih ⊢
+    congr 1
+    by_cases h : c = '\\' <;> simp [h]
 
 theorem fileAt_some {t : Tree} {q : Str} {e : Ent} (h : fileAt t q = some e) :
     e ∈ t ∧ e.comps = comps q := by
